@@ -5,7 +5,11 @@ T: `translate` re-reads pyroll/core/hooks.py (driver/translate/hooks_skeleton.py
 model CONSUMES the conversions of Hook.__get__ (which outcome of get_result becomes which exception, in order), the position of
 the store among them, and where / under which guard HookFunction.__call__ discards the re-entrancy mark; the statements of
 _all_finite, HookFunction.__call__, Hook.__get__ (explicit / remembered part), get_result, has_value are pinned by
-`hooks_source_as_modelled`.
+`hooks_source_as_modelled`.  The ERROR PATHS are read too (driver/translate/c07_errpath.py -> Gen/C07ErrPath.lean): what each
+block of Hook.__get__ that raises evaluates (format fields of the message, arguments of the exception and of logger calls, other
+statements; `str(instance)` resolved against every `__str__` of the host classes); the model's Hook.__get__ ends with an
+error-path step (`Failure.errTask` / `finish`) that consumes the table: an evaluation ON the instance there ({instance!r},
+instance.__attrs__, ...) stops `errTask_gen`, and with it every theorem, from building.
 
 The harness builds real `HookHost` subclasses with `type()`, registers implementations that are small
 first-order programs (the `Body` language of the model: return a value / the accumulator, raise, read a hook of
@@ -29,6 +33,10 @@ The independent oracle is written from the property statement (it does not know 
     other operations and the same final state.  Claimed only while no implementation branched on `cycle=True`
     and no `has_value` guard met the recursion limit (the explicit hypotheses of the theorems `no_residue` and
     `no_residue_coherent`; outside them the statement is false of the code: `no_residue_full_false`).
+Stream `hosts` (oracle only): the failing read is made on REAL objects of the library - roll passes given by gap / height /
+inscribed circle / neither, their rolls and in / out profiles, free rolls, profiles, transports, sequences and their units -
+whose repr / `__attrs__` / `__str__` are stateful: documented error kind, snapshot of `__dict__` / `__cache__` of the whole
+reachable object graph against a failure-free twin, executing-marks, later reads after a legitimate edit (see `host_case`).
 """
 import math
 
@@ -42,7 +50,13 @@ RULE = ("a case = one generated class (1-4 hooks, 1-3 instances, 1-10 implementa
         "designated fault reads are inserted; non-trivial = at least one read failed or an implementation was "
         "invoked below the top level; distinct by the canonical program+history lines. Streams: corpus, nested, "
         "values (result-kind zoo), runaway (mutual recursion with/without guards), exotic (oracle only: numpy "
-        "scalars, object/2-d arrays), wrappers (oracle only).")
+        "scalars, object/2-d arrays), wrappers (oracle only), hosts (oracle only: a case = a real pyroll object graph - "
+        "two-/three-roll pass given by gap, height, inscribed circle, both or neither, bare / after init_solve / solved, a "
+        "free roll, profile, transport, a three-unit sequence - described by its constructor arguments, a target object "
+        "of the graph (root, roll, in/out profile, unit of a sequence), a probe hook or a real hook of the target, a "
+        "fault (None, 8 non-finite shapes, runaway recursion, 6 exception kinds), read or has_value, 0-2 reads before, "
+        "0-4 reads nested in the failing implementation, an edit (set / del / clear / reevaluate_cache) and 5-8 later "
+        "reads; non-trivial = the designated read failed; a fixed corpus of 60 such cases runs first).")
 ASSUMPTIONS = [
     "source tie (T): pyroll/core/hooks.py is read with ast into canonical role lines and typed facts (driver/translate/hooks_skeleton.py, trusted); the facts the model consumes are also executed against the imported pyroll.core.hooks on every run (self_check), the role lines are compared with the hand-written shape lean/PyrollModel/HookSource.lean by the theorem hooks_source_as_modelled",
     "np.isfinite classification by value kind is modelled (Failure.shape/allNumeric/npIsFiniteAll), validated by the "
@@ -52,6 +66,14 @@ ASSUMPTIONS = [
     "only for the documented exception type and the absence of residue, not for the value",
     "wrapper implementations are not in the C07 model (C01 models them); the oracle exercises them on the real code",
     "sets, dicts and geometry objects are not searched for numbers (the statement lists them as non-numeric)",
+    "error paths (T): driver/translate/c07_errpath.py (trusted) reads what the raising blocks of Hook.__get__ evaluate and "
+    "classifies it (self.name, type(instance).__name__: effect-free; str(instance): resolved against the __str__ definitions "
+    "of the host classes of pyroll/core, effect-free when built from the type name and plain data attributes; repr(instance), "
+    "attributes and calls on the instance: evaluations ON the instance); evaluations on the RESULT value ({result!r}) are "
+    "listed, not counted; the table is executed against the imported module with an instrumented host (self_check)",
+    "stream hosts: the twin is a second graph built from the same description; values are compared up to 1e-9 relative "
+    "(identical computations), library objects by their position in the graph; the class of the target object is replaced "
+    "by a fresh subclass (probe hooks, failing implementations) - nothing is registered on the library's classes",
 ]
 
 
@@ -60,9 +82,13 @@ def translate(ctx):
     """(T) re-read pyroll/core/hooks.py of the working tree -> lean/PyrollModel/Gen/C07Hooks.lean (role lines of _all_finite,
     HookFunction.__call__, Hook.__get__, get_result, has_value + the facts the model consumes: the conversions of __get__ and
     their order, the position of the store among them, where and under which guard the re-entrancy mark is discarded)"""
-    from ..translate import hooks_skeleton
+    from ..translate import hooks_skeleton, c07_errpath
     info = hooks_skeleton.emit_for(ctx, ID)
     ctx.notes["hooks_source"] = {k: v for k, v in info["facts"].items() if k in hooks_skeleton.SELECTION[ID]["fact_names"]}
+    # the error paths of Hook.__get__: what building the exception evaluates on the instance -> Gen/C07ErrPath.lean
+    err = c07_errpath.emit(ctx)
+    ctx.notes["error_paths"] = {"raises": err["raises"], "on_instance": err["onInstance"], "on_result": err["onResult"],
+                                "str_evaluates": err["strEvaluates"], "call_handlers": err["callHandlers"]}
 
 
 FUEL = 700            # model fuel; 3..7 per nesting level -> 100..233 levels
@@ -1187,6 +1213,802 @@ CORPUS = [
 
 
 # ---------------------------------------------------------------------------------------------------------
+# stream `hosts` (oracle only): failing reads on REAL hosts of the library
+#
+# The synthetic hosts above have the base `__attrs__` / `__str__` / `__repr__` (they list `__dict__` and `__cache__`).  The
+# hosts of the library do not: a roll pass's `__attrs__` computes the contour lines (reads `gap`, the roll's contour, fills the
+# memo `_contour_lines`), a sequence's lists its units, a unit's `__str__` reads the label.  Anything the ERROR PATH of a
+# failing read evaluates on the instance (a message built with repr(), logging of the instance, diagnostics) therefore
+# computes and REMEMBERS values on such hosts, or raises and replaces the documented error.  Here the failing read is made
+# on an object of a real object graph (a two- / three-roll pass given by gap, by height, by the inscribed circle, by neither;
+# its roll; its in / out profiles after init_solve / solve; a free-standing roll, profile, transport; a pass sequence and
+# its units), whose class is replaced by a fresh subclass (`type()`) carrying two probe hooks, so that the failing
+# implementations are registered on that subclass only.  Oracle, from the statement:
+#   * the documented error kind (None -> AttributeError, non-finite -> ValueError, runaway recursion -> AttributeError, an
+#     exception of an implementation -> that very exception);
+#   * NOTHING is remembered: the snapshot of `__dict__` / `__cache__` (keys and values, memo attributes included) of every
+#     object reachable from the root equals that of a twin graph, built from the same description, on which only the reads
+#     nested in the failing implementation were made (they are reads of their own);
+#   * no implementation of any hook of any reachable object is left marked as executing;
+#   * after a legitimate edit (a value set / deleted, caches cleared, reevaluate_cache) the later reads give on the host what
+#     they give on the twin.
+# ---------------------------------------------------------------------------------------------------------
+HOST_FAULTS = ["none", "nan", "inf", "ninf", "list-nan", "array-inf", "tuple-str-nan", "nested-list-inf", "f64-nan",
+               "recursion", "raise:Other0", "raise:Other3", "raise:Other5", "raise:ValueError", "raise:AttributeError",
+               "raise:RecursionError"]
+GROOVES = {
+    "oval": ("CircularOvalGroove", lambda s, u: dict(depth=8e-3 * s * u(0.8, 1.1), r1=6e-3 * s, r2=40e-3 * s * u(0.9, 1.2))),
+    "round": ("RoundGroove", lambda s, u: dict(r1=1e-3 * s, r2=12.5e-3 * s * u(0.95, 1.1), depth=11.5e-3 * s)),
+    "box": ("BoxGroove", lambda s, u: dict(r1=2e-3 * s, r2=4e-3 * s, depth=10e-3 * s * u(0.8, 1.1), usable_width=30e-3 * s,
+                                            ground_width=24e-3 * s)),
+    "diamond": ("DiamondGroove", lambda s, u: dict(r1=3e-3 * s, r2=5e-3 * s, usable_width=38e-3 * s * u(0.9, 1.1),
+                                                    tip_depth=12e-3 * s)),
+    "square": ("SquareGroove", lambda s, u: dict(r1=3e-3 * s, r2=4e-3 * s, usable_width=30e-3 * s * u(0.97, 1.03),
+                                                  tip_depth=15e-3 * s)),
+    "swedish": ("SwedishOvalGroove", lambda s, u: dict(r1=3e-3 * s, r2=6e-3 * s, depth=7e-3 * s, usable_width=36e-3 * s,
+                                                        ground_width=20e-3 * s)),
+    "three-round": ("RoundGroove", lambda s, u: dict(r1=3e-3 * s, r2=12.5e-3 * s * u(0.9, 1.1), depth=5e-3 * s, pad_angle=30)),
+}
+
+
+def _h_profile(pspec):
+    from pyroll.core import Profile
+    kind, kw = pspec
+    base = dict(temperature=1200 + 273.15, strain=0, material=["C45", "steel"], flow_stress=100e6, density=7.5e3,
+                specific_heat_capacity=690, length=1.0)
+    return getattr(Profile, kind)(**dict(base, **kw))
+
+
+def _h_unit(u):
+    """one unit from its description {"unit": "two"|"three"|"transport", ...}"""
+    import pyroll.core as pc
+    k = u["unit"]
+    if k in ("two", "three"):
+        g = getattr(pc, u["groove"][0])(**u["groove"][1])
+        roll = pc.Roll(groove=g, **u["roll"])
+        cls = pc.RollPass if k == "two" else pc.ThreeRollPass
+        return cls(label=u.get("label", ""), roll=roll, **u.get("given", {}))
+    if k == "transport":
+        return pc.Transport(label=u.get("label", ""), **u.get("given", {}))
+    raise ValueError(u)
+
+
+def build_host(spec):
+    """the real object graph of a description (deterministic: the same description gives an equal graph)"""
+    import pyroll.core as pc
+    h = spec["host"]
+    k = h["kind"]
+    if k == "unit":
+        root = _h_unit(h)
+    elif k == "roll":
+        root = pc.Roll(groove=getattr(pc, h["groove"][0])(**h["groove"][1]), **h["roll"])
+    elif k == "profile":
+        root = _h_profile(h["profile"])
+    elif k == "sequence":
+        root = pc.PassSequence([_h_unit(u) for u in h["units"]], label=h.get("label", ""))
+    else:
+        raise ValueError(h)
+    if h.get("feed"):
+        ip = _h_profile(h["feed"])
+        if h.get("solve"):
+            root.solve(ip)
+        else:
+            root.init_solve(ip)
+    return root
+
+
+def h_walk(root, path):
+    obj = root
+    for part in [p for p in path.split(".") if p]:
+        obj = obj[int(part)] if part.isdigit() else getattr(obj, part)
+    return obj
+
+
+def _is_lib_object(v):
+    from pyroll.core.hooks import HookHost
+    return isinstance(v, HookHost) or (type(v).__module__ or "").startswith("pyroll.")
+
+
+def h_nodes(root):
+    """[(path, object)]: every object of the library reachable from root through `__dict__` / `__cache__` values, lists,
+    tuples, dicts and weak references (first path found, breadth first)"""
+    import weakref
+    seen, out, todo = set(), [], [("", root)]
+    while todo:
+        path, obj = todo.pop(0)
+        if id(obj) in seen:
+            continue
+        seen.add(id(obj))
+        out.append((path, obj))
+
+        def push(p, v, depth=0):
+            if isinstance(v, weakref.ref):
+                v = v()
+            if v is None:
+                return
+            if _is_lib_object(v) and hasattr(v, "__dict__"):
+                todo.append((p, v))
+            if isinstance(v, (list, tuple)) and depth < 3:
+                for n, x in enumerate(v):
+                    push("%s.%d" % (p, n) if p else str(n), x, depth + 1)
+            elif isinstance(v, dict) and depth < 3:
+                for kk, x in v.items():
+                    push("%s.%s" % (p, kk) if p else str(kk), x, depth + 1)
+        for src in (getattr(obj, "__dict__", {}), getattr(obj, "__cache__", {}) if isinstance(getattr(obj, "__cache__", None), dict) else {}):
+            for kk in sorted(src, key=str):
+                if kk == "__cache__":
+                    continue
+                name = kk if kk != "_subunits" else "_subunits"
+                push((path + "." + name) if path else name, src[kk])
+    return out
+
+
+def h_norm(v, depth=0):
+    """a value as far as `later reads behave the same` can depend on it (library objects: by position in the graph only)"""
+    import weakref
+    import numpy as np
+    if v is None or isinstance(v, (bool, int, str)):
+        return v
+    if isinstance(v, float):
+        return ("f", v)
+    if isinstance(v, np.generic):
+        return h_norm(v.item(), depth)
+    if isinstance(v, np.ndarray):
+        if v.dtype.kind in "fiub":
+            return ("arr", list(v.shape), [("f", float(x)) for x in v.ravel()[:400]])
+        return ("arr", list(v.shape), str(v.dtype))
+    if isinstance(v, weakref.ref):
+        return ("weak", v() is not None)
+    if hasattr(v, "geom_type") and hasattr(v, "wkb"):
+        b = v.bounds if not v.is_empty else ()
+        return ("geom", v.geom_type, ("f", float(v.area)), ("f", float(v.length)), [("f", float(x)) for x in b])
+    if _is_lib_object(v):
+        return ("ref",)
+    if isinstance(v, (list, tuple)):
+        return (type(v).__name__, [h_norm(x, depth + 1) for x in v] if depth < 4 else len(v))
+    if isinstance(v, dict):
+        return ("dict", sorted(((str(k), h_norm(x, depth + 1)) for k, x in v.items()), key=lambda p: p[0]) if depth < 4 else len(v))
+    if isinstance(v, (set, frozenset)):
+        return ("set", sorted(repr(x) for x in v))
+    if callable(v):
+        return ("callable", getattr(v, "__qualname__", type(v).__name__))
+    return ("obj", type(v).__name__)
+
+
+def h_same(a, b):
+    """equal up to 1e-9 relative on floats (host and twin run the same computations; nan equals nan)"""
+    if isinstance(a, tuple) and isinstance(b, tuple) and len(a) == 2 and a[0] == "f" and b[0] == "f":
+        x, y = a[1], b[1]
+        if math.isnan(x) or math.isnan(y):
+            return math.isnan(x) and math.isnan(y)
+        if math.isinf(x) or math.isinf(y):
+            return x == y
+        return abs(x - y) <= 1e-9 * max(abs(x), abs(y)) + 1e-15
+    if isinstance(a, (tuple, list)) and isinstance(b, (tuple, list)):
+        return len(a) == len(b) and all(h_same(x, y) for x, y in zip(a, b))
+    return type(a) is type(b) and a == b
+
+
+def h_snapshot(root):
+    """{path: {"dict": {key: value}, "cache": {key: value}}} over the reachable object graph"""
+    snap = {}
+    for path, obj in h_nodes(root):
+        d = {str(k): h_norm(v) for k, v in getattr(obj, "__dict__", {}).items() if k != "__cache__"}
+        c = getattr(obj, "__cache__", None)
+        snap[path] = {"dict": d, "cache": {str(k): h_norm(v) for k, v in c.items()} if isinstance(c, dict) else {}}
+    return snap
+
+
+def h_diff(sa, sb, limit=6):
+    """differences host / twin as readable lines"""
+    out = []
+    for path in sorted(set(sa) | set(sb)):
+        where = path or "<root>"
+        if path not in sa or path not in sb:
+            out.append("object %s is reachable only on the %s" % (where, "host" if path in sa else "twin"))
+            continue
+        for cont in ("dict", "cache"):
+            a, b = sa[path][cont], sb[path][cont]
+            name = "__dict__" if cont == "dict" else "__cache__"
+            for k in sorted(set(a) | set(b)):
+                if k not in b:
+                    out.append("%s.%s[%r] exists only after the failed read (= %s)" % (where, name, k, str(a[k])[:70]))
+                elif k not in a:
+                    out.append("%s.%s[%r] is missing after the failed read" % (where, name, k))
+                elif not h_same(a[k], b[k]):
+                    out.append("%s.%s[%r] = %s after the failed read, %s without it" % (where, name, k, str(a[k])[:60], str(b[k])[:60]))
+                if len(out) >= limit:
+                    return out
+    return out
+
+
+_MARK_STORES = ["_first_wrappers", "_wrappers", "_last_wrappers", "_first_functions", "_functions", "_last_functions"]
+
+
+def h_marks(root):
+    """implementations (of any hook of any reachable object's class) that are marked as executing"""
+    from pyroll.core.hooks import Hook, HookHost
+    out, seen = [], set()
+    for path, obj in h_nodes(root):
+        if not isinstance(obj, HookHost):
+            continue
+        for c in type(obj).__mro__:
+            if c in seen:
+                continue
+            seen.add(c)
+            for name, hk in list(vars(c).items()):
+                if not isinstance(hk, Hook):
+                    continue
+                for st in _MARK_STORES:
+                    for hf in getattr(hk, st, ()) or ():
+                        act = getattr(hf, "_active_instances", None)
+                        if (act is not None and len(act) > 0) or (act is None and getattr(hf, "cycle", False)):
+                            out.append("%s.%s: %s" % (c.__name__, name, getattr(getattr(hf, "function", None), "__qualname__", "?")))
+    return out
+
+
+def h_hooks(obj):
+    from pyroll.core.hooks import Hook
+    return sorted({n for c in type(obj).__mro__ for n, v in vars(c).items() if isinstance(v, Hook)})
+
+
+def h_fault_value(kind):
+    import numpy as np
+    nan, inf = float("nan"), float("inf")
+    return {"nan": lambda: nan, "inf": lambda: inf, "ninf": lambda: -inf, "list-nan": lambda: [1.0, nan],
+            "array-inf": lambda: np.array([1.0, inf]), "tuple-str-nan": lambda: ("s", nan),
+            "nested-list-inf": lambda: [[1.0, 2.0], [3.0, -inf]], "f64-nan": lambda: np.float64("nan")}[kind]()
+
+
+class _FmtHandler:
+    """a logging handler that formats every record (what a configured handler does)"""
+    def __new__(cls):
+        import logging
+
+        class H(logging.Handler):
+            def emit(self, record):
+                record.getMessage()
+        return H(level=logging.DEBUG)
+
+
+class _HostTimeout(BaseException):
+    pass
+
+
+HOST_TIME_LIMIT = 40.0      # seconds for one case (a case takes ~30 ms; error paths that re-enter the failing read take for ever)
+
+
+class _time_limit:
+    """raise _HostTimeout in the main thread when the block runs longer than `seconds` (no-op elsewhere)"""
+
+    def __init__(self, seconds):
+        self.seconds, self.old, self.on = seconds, None, False
+
+    def __enter__(self):
+        import signal
+        import threading
+        if threading.current_thread() is threading.main_thread() and hasattr(signal, "setitimer"):
+            def fire(signum, frame):
+                raise _HostTimeout()
+            self.old = signal.signal(signal.SIGALRM, fire)
+            signal.setitimer(signal.ITIMER_REAL, self.seconds)
+            self.on = True
+        return self
+
+    def __exit__(self, *exc):
+        import signal
+        if self.on:
+            signal.setitimer(signal.ITIMER_REAL, 0)
+            signal.signal(signal.SIGALRM, self.old)
+        return False
+
+
+def h_prepare(spec):
+    """build the graph and give the target a fresh subclass with the probe hooks  -> (root, target, subclass)"""
+    from pyroll.core.hooks import Hook
+    root = build_host(spec)
+    tgt = h_walk(root, spec["target"])
+    base = type(tgt)
+    sub = type("C07" + base.__name__, (base,), {"c07_probe": Hook[object](), "c07_probe2": Hook[object]()})
+    tgt.__class__ = sub
+    return root, tgt, sub
+
+
+def h_arm(spec, root, tgt, sub):
+    """register the failing implementation(s) of the designated read on the target's subclass; -> info with `withdraw`"""
+    info = {"nested": [], "depth": 0, "raised": []}
+    hook, fault = spec["hook"], spec["fault"]
+
+    def c07_fault(self):
+        if info["depth"] > 0:                       # re-entered through a nested read: fail at once
+            return fail()
+        info["depth"] += 1
+        try:
+            for (path, name) in spec.get("nested", []):
+                try:
+                    getattr(h_walk(root, path), name)
+                    info["nested"].append([path, name, True])
+                except Exception:
+                    info["nested"].append([path, name, False])
+        finally:
+            info["depth"] -= 1
+        return fail()
+
+    def fail():
+        if fault == "none":
+            return None
+        if fault == "recursion":
+            return getattr(tgt, "c07_probe2")
+        if fault.startswith("raise:"):
+            e = exc_class(fault[6:])()
+            info["raised"].append(e)
+            raise e
+        return h_fault_value(fault)
+    hk = getattr(sub, hook)
+    registered = [(hk, hk(c07_fault, tryfirst=True))]
+    if fault == "recursion":
+        def c07_back(self):
+            return getattr(self, hook)
+        registered.append((sub.c07_probe2, sub.c07_probe2(c07_back)))
+
+    def withdraw():                                 # the failing implementations exist for the designated read only
+        for h, hf in registered:
+            h.remove_function(hf)
+    info["withdraw"] = withdraw
+    return info
+
+
+def h_read(obj, name, via="read"):
+    """-> ("val", normalised) | ("bool", b) | ("exc", type name, exception)"""
+    try:
+        if via == "has":
+            return ("bool", bool(obj.has_value(name)))
+        return ("val", h_norm(getattr(obj, name)))
+    except RecursionError as e:
+        return ("exc", "RecursionError", e)
+    except BaseException as e:
+        if isinstance(e, (KeyboardInterrupt, SystemExit, MemoryError, _HostTimeout)):
+            raise
+        return ("exc", type(e).__name__, e)
+
+
+def h_apply_edit(root, edit):
+    k = edit[0]
+    try:
+        if k == "set":
+            setattr(h_walk(root, edit[1]), edit[2], edit[3])
+        elif k == "del":
+            delattr(h_walk(root, edit[1]), edit[2])
+        elif k == "clear":
+            h_walk(root, edit[1]).__cache__.clear()
+        elif k == "reevaluate":
+            h_walk(root, edit[1]).reevaluate_cache()
+        return "ok"
+    except Exception as e:
+        return "exc " + type(e).__name__
+
+
+def host_case(spec):
+    """one failing read on a real host, judged against the statement.  -> (problems [(key, text)], info)"""
+    try:
+        with _time_limit(HOST_TIME_LIMIT):
+            return _host_case(spec)
+    except _HostTimeout:
+        return [("host-read-does-not-return", "%s of %s on %s of a %s (fault: %s) and the reads around it did not finish within "
+                 "%d s (such a case takes some 30 ms): the failure of a read is not reached" % (
+                     spec.get("via", "read"), spec["hook"], spec["target"] or "<root>", host_label(spec), spec["fault"],
+                     HOST_TIME_LIMIT))], {"failed": True, "timeout": True}
+
+
+def _host_case(spec):
+    import logging
+    problems = []
+    lg = logging.getLogger("pyroll")
+    old_level, old_prop, handler = lg.level, lg.propagate, None
+    if spec.get("log"):
+        handler = _FmtHandler()
+        lg.addHandler(handler)
+        lg.setLevel(logging.DEBUG)
+        lg.propagate = False
+    try:
+        root, tgt, sub = h_prepare(spec)
+        twin, _, _ = h_prepare(spec)
+        for (path, name) in spec.get("pre", []):
+            h_read(h_walk(root, path), name)
+            h_read(h_walk(twin, path), name)
+        if h_diff(h_snapshot(root), h_snapshot(twin)):
+            return [], {"discarded": "host and twin differ before the failing read"}
+        hook, fault, via = spec["hook"], spec["fault"], spec.get("via", "read")
+        avail = tgt.__dict__.get(hook, None) is not None or tgt.__cache__.get(hook, None) is not None
+        natural = fault == "as-is"               # no failing implementation is registered: the host's own outcome
+        info = {"nested": [], "raised": [], "withdraw": lambda: None} if natural else h_arm(spec, root, tgt, sub)
+        out = h_read(tgt, hook, via)
+        info["withdraw"]()
+        nested_ok = [x for x in info["nested"] if x[2]]
+        what = "%s of %s on %s %s of a %s (fault: %s%s)" % (
+            "has_value" if via == "has" else "read", hook, type(tgt).__mro__[1].__name__, "<root>" if not spec["target"] else spec["target"],
+            host_label(spec), fault, ", after %d successful nested reads" % len(nested_ok) if nested_ok else "")
+        failed = out[0] == "exc" or out == ("bool", False)
+        if natural:
+            # whatever the library's own implementations do: a read never ends in RecursionError
+            if out[0] == "exc" and out[1] == "RecursionError":
+                problems.append(("host-recursion-error-escapes", "%s raised RecursionError" % what))
+        elif not avail:
+            # ---- the documented error kind
+            if fault == "none" or fault == "recursion":
+                want = "AttributeError"
+                ok = (out[0] == "exc" and type(out[2]) is AttributeError) if via == "read" else \
+                    (out == ("bool", False) or (fault == "recursion" and out[0] == "exc" and type(out[2]) is AttributeError))
+            elif fault.startswith("raise:"):
+                want = "the %s raised by the implementation" % fault[6:]
+                if fault == "raise:RecursionError":
+                    want = "AttributeError (RecursionError is converted)"
+                    ok = (out[0] == "exc" and type(out[2]) is AttributeError) or (via == "has" and out == ("bool", False))
+                elif via == "has" and fault == "raise:AttributeError":
+                    ok = out == ("bool", False)
+                else:
+                    ok = out[0] == "exc" and bool(info["raised"]) and out[2] is info["raised"][-1]
+            else:
+                want = "ValueError"
+                ok = out[0] == "exc" and type(out[2]) is ValueError
+            if not ok:
+                got = ("%s (%s)" % (out[1], str(out[2])[:90])) if out[0] == "exc" else repr(out[1])[:80]
+                key = "host-documented-error-replaced" if out[0] == "exc" else ("host-has-value-hides-error" if out == ("bool", False) else "host-no-error")
+                problems.append((key, "%s: expected %s, got %s" % (what, want, got)))
+        # ---- nothing is remembered: compare with the twin on which only the reads nested in the failing implementation were
+        # made, as reads of their own (nested reads are generated for the probe hooks only, which nothing else depends on)
+        for (path, name, _) in info["nested"]:
+            h_read(h_walk(twin, path), name)
+        if failed and natural:
+            m = h_marks(root)                   # (what the failed read computed on the way is not known: no twin)
+            if m:
+                problems.append(("host-marks-left", "%s failed; still marked as executing: %s" % (what, ", ".join(m[:4]))))
+            return problems, {"failed": failed, "available": avail, "outcome": out[1] if out[0] != "val" else "value", "nested_ok": 0}
+        if failed:
+            d = h_diff(h_snapshot(root), h_snapshot(twin))
+            if d:
+                problems.append(("host-failed-read-remembered", "%s failed with %s and left behind: %s"
+                                 % (what, out[1] if out[0] == "exc" else "False", " ; ".join(d))))
+            m = h_marks(root)
+            if m:
+                problems.append(("host-marks-left", "%s failed; still marked as executing: %s" % (what, ", ".join(m[:4]))))
+        # ---- a legitimate edit, then later reads: as on the twin
+        if failed and spec.get("edit"):
+            ea, eb = h_apply_edit(root, spec["edit"]), h_apply_edit(twin, spec["edit"])
+            if ea != eb:
+                problems.append(("host-twin-diverges", "%s failed; afterwards %s gives %s on the host, %s on the twin"
+                                 % (what, spec["edit"][:3], ea, eb)))
+        if failed:
+            for (path, name) in spec.get("later", []):
+                a, b = h_read(h_walk(root, path), name), h_read(h_walk(twin, path), name)
+                if a[:2] != b[:2] and not (a[0] == b[0] == "val" and h_same(a[1], b[1])):
+                    problems.append(("host-twin-diverges", "%s failed; after %s the read of %s%s gives %s, on the twin that never "
+                                     "made the failing read %s" % (what, spec.get("edit", ["no edit"])[:4], (path + ".") if path else "",
+                                                                    name, str(a[:2])[:90], str(b[:2])[:90])))
+                    break
+            else:
+                d = h_diff(h_snapshot(root), h_snapshot(twin))
+                if d and not any(k == "host-failed-read-remembered" for k, _ in problems):
+                    problems.append(("host-twin-diverges", "%s failed; after the later reads the host differs from the twin: %s"
+                                     % (what, " ; ".join(d))))
+        return problems, {"failed": failed, "available": avail, "outcome": out[1] if out[0] != "val" else "value",
+                          "nested_ok": len(nested_ok)}
+    finally:
+        if handler is not None:
+            lg.removeHandler(handler)
+        lg.setLevel(old_level)
+        lg.propagate = old_prop
+
+
+def host_label(spec):
+    h = spec["host"]
+    if h["kind"] == "unit":
+        g = sorted(h.get("given", {}))
+        s = "%s-roll pass given by %s" % (h["unit"], "+".join(g) or "neither gap nor height") if h["unit"] != "transport" else "transport"
+    elif h["kind"] == "sequence":
+        s = "sequence of %d units" % len(h["units"])
+    else:
+        s = h["kind"]
+    if h.get("feed"):
+        s += " (solved)" if h.get("solve") else " (init_solve)"
+    return s
+
+
+def _gen_pass(rng, three=None, given=None, label=None):
+    import pyroll.core as pc
+    s = rng.uniform(0.7, 1.4)
+    u = rng.uniform
+    three = rng.random() < 0.35 if three is None else three
+    gk = "three-round" if three else rng.choice(["oval", "round", "box", "diamond", "square", "swedish"])
+    groove = [GROOVES[gk][0], GROOVES[gk][1](s, u)]
+    unit = {"unit": "three" if three else "two", "groove": groove,
+            "roll": {"nominal_radius": 160e-3 * s, "rotational_frequency": rng.choice([1, 1, 2.5])},
+            "label": rng.choice(["", "", "Oval I", "K 2"]) if label is None else label}
+    g = 2e-3 * s * u(0.5, 1.5)
+    given = given or rng.choice(["gap", "gap", "height", "height", "neither", "icd" if three else "both"])
+    if given == "gap":
+        unit["given"] = {"gap": g}
+    elif given == "neither":
+        unit["given"] = {}
+    else:
+        ref = _h_unit(dict(unit, given={"gap": g}))             # the height / inscribed circle that belongs to this gap
+        if given == "height":
+            unit["given"] = {"height": float(ref.height)}
+        elif given == "icd":
+            unit["given"] = {"inscribed_circle_diameter": float(ref.inscribed_circle_diameter)}
+        else:
+            unit["given"] = {"gap": g, "height": float(ref.height)}
+    return unit
+
+
+def _gen_feed(rng, size=None):
+    k = rng.choice(["round", "square", "box", "diamond"])
+    s = (size or 30e-3) * rng.uniform(0.85, 1.05)
+    return [k, {"round": dict(diameter=s), "square": dict(side=s * 0.8, corner_radius=s * 0.05),
+                "box": dict(height=s * 0.9, width=s * 0.8, corner_radius=s * 0.05),
+                "diamond": dict(height=s * 0.8, width=s * 1.1, corner_radius=s * 0.05)}[k]]
+
+
+EDIT_NAMES = ["gap", "height", "inscribed_circle_diameter", "nominal_radius", "duration", "temperature", "length",
+              "rotational_frequency", "velocity", "flow_stress"]
+
+
+def gen_host_case(rng, kind=None, fault=None):
+    """a complete description: the host graph, the target object, the failing hook and fault, the reads made before,
+    inside and after, the edit.  The hooks that can be read are found on a scout graph built from the same description."""
+    from pyroll.core.hooks import HookHost
+    kind = kind or rng.choice(["pass", "pass", "pass", "pass", "pass-fed", "pass-fed", "pass-solved", "roll", "profile",
+                               "transport", "transport-fed", "sequence", "sequence", "sequence-solved"])
+    if kind in ("pass", "pass-fed", "pass-solved"):
+        host = dict(_gen_pass(rng, given=("gap" if kind == "pass-solved" else None)), kind="unit")
+        if kind != "pass":
+            host["feed"] = _gen_feed(rng)
+            host["solve"] = kind == "pass-solved"
+            if "gap" not in host["given"] and "height" not in host["given"] and "inscribed_circle_diameter" not in host["given"]:
+                host.pop("feed")              # init_solve needs the geometry
+                host.pop("solve")
+    elif kind == "roll":
+        u = _gen_pass(rng)
+        host = {"kind": "roll", "groove": u["groove"], "roll": u["roll"]}
+    elif kind == "profile":
+        host = {"kind": "profile", "profile": _gen_feed(rng)}
+    elif kind in ("transport", "transport-fed"):
+        host = {"kind": "unit", "unit": "transport", "label": rng.choice(["", "T 1"]),
+                "given": rng.choice([{"duration": rng.uniform(0.5, 3)}, {"length": rng.uniform(1, 5)}, {}])}
+        if kind == "transport-fed":
+            host["feed"] = _gen_feed(rng)
+            host["solve"] = False
+    else:
+        units = [_gen_pass(rng, three=False, given=rng.choice(["gap", "height"]) if kind == "sequence" else "gap", label="R1"),
+                 {"unit": "transport", "label": "T", "given": {"duration": rng.uniform(0.5, 2)}},
+                 _gen_pass(rng, three=False, given=rng.choice(["gap", "height", "neither"]) if kind == "sequence" else "gap", label="")]
+        if kind == "sequence-solved":
+            units[2]["groove"] = [GROOVES["round"][0], GROOVES["round"][1](1.0, rng.uniform)]
+            units[0]["groove"] = [GROOVES["oval"][0], GROOVES["oval"][1](1.0, rng.uniform)]
+            units[0]["given"] = {"gap": 2e-3}
+            units[2]["given"] = {"gap": 2e-3}
+        host = {"kind": "sequence", "units": units, "label": rng.choice(["", "train"])}
+        if kind == "sequence-solved":
+            host["feed"] = ["round", dict(diameter=30e-3)]
+            host["solve"] = True
+    spec = {"host": host, "target": "", "hook": "c07_probe", "fault": "nan"}
+    try:
+        scout = build_host(spec)
+    except Exception as e:
+        return None, "build:" + type(e).__name__
+    nodes = [(p, o) for (p, o) in h_nodes(scout) if isinstance(o, HookHost)]
+    # paths that `h_walk` can follow (attribute names / indices): the weak references and `_subunits` are not
+    paths = []
+    for p, o in nodes:
+        q = p.replace("_subunits.", "")
+        try:
+            if h_walk(scout, q) is o:
+                paths.append((q, o))
+        except Exception:
+            pass
+    good, floats, allh = [], [], []
+    for q, o in paths:
+        for n in h_hooks(o):
+            allh.append([q, n])
+            try:
+                with _time_limit(HOST_TIME_LIMIT):
+                    r = h_read(o, n)
+            except _HostTimeout:                   # a plain read of a fresh host does not come back: that is the case
+                spec.update(target=q, hook=n, fault="as-is", via="read", pre=[], nested=[], later=[], log=False)
+                return spec, None
+            if r[0] == "val":
+                good.append([q, n])
+                if isinstance(r[1], tuple) and r[1][:1] == ("f",) and math.isfinite(r[1][1]) and r[1][1] != 0:
+                    floats.append([q, n, r[1][1]])
+    tq, tobj = rng.choice(paths)
+    spec["target"] = tq
+    r = rng.random()
+    if r < 0.45:
+        spec["hook"] = "c07_probe"
+    else:
+        spec["hook"] = rng.choice(h_hooks(tobj))
+    spec["fault"] = fault or rng.choice(HOST_FAULTS if spec["hook"] == "c07_probe" else [f for f in HOST_FAULTS if f != "none"])
+    if fault is None and spec["hook"] != "c07_probe" and rng.random() < 0.2:
+        spec["fault"] = "as-is"                                  # the hook as the library computes (or fails to compute) it
+    spec["via"] = "has" if rng.random() < 0.15 else "read"
+    pick = lambda xs, k: [list(x[:2]) for x in rng.sample(xs, min(k, len(xs)))]
+    spec["pre"] = pick(good, rng.choice([0, 0, 0, 1, 2])) if rng.random() < 0.5 else []
+    spec["nested"] = []
+    if spec["hook"] == "c07_probe":                              # nothing else depends on the probe hooks
+        spec["nested"] = pick(good, rng.choice([1, 2, 3])) if rng.random() < 0.6 else []
+        if rng.random() < 0.15 and allh:
+            spec["nested"].append(list(rng.choice(allh)))       # possibly a read that fails inside
+    ed = [f for f in floats if f[1] in EDIT_NAMES] or floats
+    r = rng.random()
+    if ed and r < 0.7:
+        q, n, v = rng.choice(ed)
+        spec["edit"] = ["set", q, n, v * rng.choice([2.0, 1.1, 0.9, 1.5])]
+    elif r < 0.8:
+        spec["edit"] = ["clear", rng.choice(paths)[0]]
+    elif r < 0.9:
+        spec["edit"] = ["reevaluate", rng.choice(paths)[0]]
+    elif good:
+        q, n = rng.choice(good)
+        spec["edit"] = ["del", q, n]
+    spec["later"] = pick(good, 5) + pick(allh, 2)
+    if spec.get("edit") and spec["edit"][0] == "set":
+        spec["later"] = [spec["edit"][1:3]] + spec["later"]
+    spec["log"] = rng.random() < 0.15
+    return spec, None
+
+
+def host_corpus():
+    """always run: every kind of host x the main faults, on the root, with an edit of the defining value"""
+    import random
+    rng = random.Random(7)
+    out = []
+    for kind, edits in [("pass", None), ("pass-fed", None), ("roll", None), ("profile", None), ("transport", None),
+                        ("sequence", None)]:
+        for given in (["gap", "height", "neither", "icd"] if kind == "pass" else [None]):
+            for fault in ["nan", "list-nan", "none", "recursion", "raise:Other3"]:
+                for three in ([False, True] if kind == "pass" else [None]):
+                    if given == "icd" and not three:
+                        continue
+                    if kind == "pass":
+                        host = dict(_gen_pass(rng, three=three, given=given, label="Oval I"), kind="unit")
+                        spec, why = _host_spec_for(rng, host, fault)
+                    else:
+                        spec, why = gen_host_case(rng, kind, fault)
+                        if spec is not None:
+                            spec.update(target="", hook="c07_probe", via="read", nested=[], pre=[], log=False)
+                    if spec is not None:
+                        out.append(spec)
+    return out
+
+
+def _host_spec_for(rng, host, fault):
+    """the demo shape: failing probe on the root pass, then the defining value is changed and the geometry read"""
+    spec = {"host": host, "target": "", "hook": "c07_probe" if fault in ("none", "recursion") else "roll_force", "fault": fault,
+            "via": "read", "pre": [], "nested": [], "log": False}
+    g = host["given"]
+    if "height" in g:
+        spec["edit"] = ["set", "", "height", g["height"] + 2e-3]
+    elif "gap" in g:
+        spec["edit"] = ["set", "", "gap", g["gap"] * 2]
+    elif "inscribed_circle_diameter" in g:
+        spec["edit"] = ["set", "", "inscribed_circle_diameter", g["inscribed_circle_diameter"] + 2e-3]
+    else:
+        spec["edit"] = ["set", "", "gap", 2e-3]
+    spec["later"] = [["", "gap"], ["", "height"], ["", "usable_width"], ["roll", "contour_points"], ["", "usable_cross_section"]]
+    return spec, None
+
+
+def host_replay_obj(spec, probs):
+    return {"stream": "hosts", "host": host_label(spec), "target": spec["target"] or "<root>", "hook": spec["hook"],
+            "fault": spec["fault"], "via": spec.get("via", "read"), "problems": [p[1] for p in probs[:5]],
+            "raw": {"stream": "hosts", "spec": spec},
+            "how": "driver/props/c07.py: build_host(raw.spec) builds the real pyroll object graph (host: unit / roll / profile / "
+                   "sequence description, feed = in-profile for init_solve / solve); the object at `target` gets a fresh "
+                   "subclass with the hooks c07_probe / c07_probe2; a tryfirst implementation of `hook` makes the `nested` "
+                   "reads and then fails as `fault` says; `pre` reads before, `edit` and `later` reads after, on the host "
+                   "and on a twin graph that never makes the failing read; host_case(raw.spec) judges; "
+                   "`./check C07 --replay <this file>` re-runs it"}
+
+
+def shrink_host(spec, key):
+    """drop the reads before / inside / after, the logging and the edit while a problem with this key persists"""
+    import time
+    t0 = time.time()
+
+    def bad(s):
+        if time.time() - t0 > 60:                    # slow cases (error paths that re-enter reads): keep what we have
+            return False
+        try:
+            probs, _ = host_case(s)
+        except Exception:
+            return False
+        return any(k == key for k, _ in probs)
+    cur = json_copy(spec)
+    for field in ("log", "pre", "nested"):
+        s2 = json_copy(cur)
+        s2[field] = False if field == "log" else []
+        if bad(s2):
+            cur = s2
+    for field in ("pre", "nested", "later"):
+        n = 0
+        while n < len(cur.get(field, [])):
+            s2 = json_copy(cur)
+            del s2[field][n]
+            if bad(s2):
+                cur = s2
+            else:
+                n += 1
+    if cur.get("edit"):
+        s2 = json_copy(cur)
+        s2.pop("edit")
+        if bad(s2):
+            cur = s2
+    if cur.get("via") == "has":
+        s2 = json_copy(cur)
+        s2["via"] = "read"
+        if bad(s2):
+            cur = s2
+    return cur
+
+
+def json_copy(x):
+    import json
+    return json.loads(json.dumps(x))
+
+
+def run_hosts(ctx):
+    """the stream `hosts`"""
+    import json
+    rng = ctx.rng
+    specs = [("hosts-corpus", s) for s in host_corpus()]
+    n = ctx.budget(140, 1800)
+    if getattr(ctx, "extended", False):
+        n = min(n, 2500)
+    for _ in range(n):
+        spec, why = gen_host_case(rng)
+        if spec is None:
+            ctx.count("hosts-discarded:" + why)
+            continue
+        specs.append(("hosts", spec))
+    seen_keys = set()
+    for name, spec in specs:
+        spec = json_copy(spec)                       # what is judged is what a replay file can hold
+        try:
+            probs, info = host_case(spec)
+        except RecursionError:
+            ctx.count("hosts-discarded:harness-recursion")
+            continue
+        if info.get("discarded"):
+            ctx.count("hosts-discarded:" + info["discarded"])
+            continue
+        ctx.case(["hosts", json.dumps(spec, sort_keys=True)], nontrivial=bool(info.get("failed")))
+        ctx.count("stream:" + name)
+        ctx.count("host:" + host_label(spec))
+        ctx.count("host-fault:" + spec["fault"].split(":")[0] + ("(value available)" if info.get("available") else ""))
+        ctx.count("host-target:" + (spec["target"] or "<root>").replace("0", "N").replace("1", "N").replace("2", "N"))
+        if info.get("nested_ok"):
+            ctx.count("host-failed-after-successful-nested-reads")
+        if spec.get("log"):
+            ctx.count("host-with-debug-logging")
+        done = set()
+        for (key, text) in probs:
+            if key in done or key in seen_keys:
+                continue
+            done.add(key)
+            seen_keys.add(key)
+            if info.get("timeout"):                  # every re-run costs the time limit again: no shrinking
+                ctx.violation(key, text, host_replay_obj(spec, [(key, text)]))
+                continue
+            s2 = shrink_host(spec, key)
+            p2, _ = host_case(s2)
+            mine = [p for p in p2 if p[0] == key] or [(key, text)]
+            ctx.violation(key, mine[0][1], host_replay_obj(s2, mine))
+        if info.get("timeout"):
+            ctx.count("hosts-stream-stopped-after-timeout")
+            break
+
+
+# ---------------------------------------------------------------------------------------------------------
 # run
 # ---------------------------------------------------------------------------------------------------------
 def body_targets(b, acc):
@@ -1386,6 +2208,8 @@ def run(ctx):
             continue
         pending.append((name, prog, ops, faults, resA))
 
+    run_hosts(ctx)
+
     if not getattr(ctx, "model_available", True) or not pending:
         return
     safe = [c for c in pending if not risky(c[1])]
@@ -1493,6 +2317,13 @@ def _fix_body(b):
 
 def replay(ctx, data):
     raw = data.get("replay", data)["raw"]
+    if raw.get("stream") == "hosts":
+        probs, info = host_case(raw["spec"])
+        for (key, text) in probs:
+            ctx.violation(key, text, data.get("replay", data))
+        print("replay (hosts):", host_label(raw["spec"]), raw["spec"]["target"] or "<root>", raw["spec"]["hook"], raw["spec"]["fault"],
+              "->", info, "problems:", probs)
+        return
     prog = {"hooks": raw["prog"]["hooks"], "insts": raw["prog"]["insts"],
             "fns": [(f, h, _fix_body(b), tc, t) for (f, h, b, tc, t) in raw["prog"]["fns"]]}
     if raw["prog"].get("wrappers"):
